@@ -24,7 +24,8 @@ def Quirks.current : Quirks :=
     inplaceKeepsVersion := false,    -- D27 / D28
     rawLookupSeesExpired := false,  -- D22
     flushDetaches := false,         -- D42
-    lcsRunes := false }             -- D68
+    lcsRunes := false,              -- D68
+    sintercardLimitGreedy := true } -- D88
 
 def words (s : String) : List String := (s.splitOn " ").filter (· ≠ "")
 
@@ -344,7 +345,7 @@ def allQuirkOff (q : Quirks) : List (String × Quirks) :=
    ("D37", { q with bitcountEmptyCrash := false }), ("D45", { q with bfSignedOverflow64 := false }),
    ("D46", { q with bfSetOverflowUsesSum := false }), ("D63", { q with unlinkKeepsObject := false }),
    ("D60", { q with getexNoOptPersists := false }), ("D62", { q with bitposPartialEnd := false }),
-   ("D61", { q with bitopEmptyCreates := false }), ("D68", { q with lcsRunes := false })]
+   ("D61", { q with bitopEmptyCreates := false }), ("D68", { q with lcsRunes := false }), ("D88", { q with sintercardLimitGreedy := false })]
 
 /-- observable part of an outcome, for "did this quirk matter on this step" -/
 def outKey (o : Out) : String :=
